@@ -116,7 +116,7 @@ static void gen_ttx(St &st, uint8_t out[42]) {
 
 // A consistent Level 2.5 / 3.5 neighbourhood in one magazine: MOT page with POP and DRCS links, a POP page (pointer tables and object
 // definitions), a DRCS page, and a normal page whose X/26 invokes objects and DRCS characters - what enhance() and the DRCS code need to run.
-static void gen_l25(St &st, std::vector<tx::Packet> &out) {
+static unsigned gen_l25(St &st, std::vector<tx::Packet> &out) {
 	Src &s = st.s;
 	unsigned mag = 1 + s.pick(8);
 	unsigned pop_page[4], drcs_page[4];
@@ -129,13 +129,13 @@ static void gen_l25(St &st, std::vector<tx::Packet> &out) {
 	for (unsigned pk = 1; pk <= 8; ++pk) if (s.chance(3, 4)) { std::vector<unsigned> n; for (int i = 0; i < 40; ++i) n.push_back(s.chance(2, 3) ? s.pick(4) : s.pick(16)); hamrow(pk, n); }
 	for (unsigned pk = 19; pk <= 20; ++pk) if (s.chance(3, 4)) {
 		std::vector<unsigned> n;
-		for (int l = 0; l < 4; ++l) { unsigned pg = pop_page[s.pick(4)]; n.push_back(mag & 7); n.push_back(pg >> 4); n.push_back(pg & 15); n.push_back(s.pick(16)); n.push_back(s.pick(16)); n.push_back(s.pick(16)); for (int k = 0; k < 4; ++k) n.push_back(s.pick(16)); }
+		for (int l = 0; l < 4; ++l) { unsigned pg = pop_page[s.chance(3, 4) ? 0 : s.pick(4)]; n.push_back(mag & 7); n.push_back(pg >> 4); n.push_back(pg & 15); n.push_back(s.pick(16)); n.push_back(s.pick(16)); n.push_back(s.pick(16)); for (int k = 0; k < 4; ++k) n.push_back(s.pick(16)); }
 		hamrow(pk, n);
 	}
-	if (s.chance(3, 4)) { std::vector<unsigned> n; for (int l = 0; l < 8; ++l) { unsigned pg = drcs_page[s.pick(4)]; n.push_back(mag & 7); n.push_back(pg >> 4); n.push_back(pg & 15); n.push_back(s.pick(16)); } hamrow(21, n); }
+	if (s.chance(3, 4)) { std::vector<unsigned> n; for (int l = 0; l < 8; ++l) { unsigned pg = drcs_page[s.chance(3, 4) ? 0 : s.pick(4)]; n.push_back(mag & 7); n.push_back(pg >> 4); n.push_back(pg & 15); n.push_back(s.pick(16)); } hamrow(21, n); }
 	if (s.chance(1, 3)) { std::vector<unsigned> n; hamrow(22 + s.pick(3), n); }
 	// POP page
-	unsigned pp = pop_page[s.pick(4)];
+	unsigned pp = pop_page[s.chance(3, 4) ? 0 : s.pick(4)];
 	out.push_back(tx::header(mag, pp, s.pick(4), f, txt));
 	std::vector<unsigned> ptrs;	// object definition positions (triplet index from packet 3 on)
 	for (int i = 0; i < 8; ++i) ptrs.push_back(s.chance(1, 8) ? 507 + s.pick(5) : s.pick(13 * 10));
@@ -155,7 +155,7 @@ static void gen_l25(St &st, std::vector<tx::Packet> &out) {
 	}
 	// DRCS page: pattern rows and the mode table
 	if (s.chance(2, 3)) {
-		out.push_back(tx::header(mag, drcs_page[s.pick(4)], s.pick(4), f, txt));
+		out.push_back(tx::header(mag, drcs_page[s.chance(3, 4) ? 0 : s.pick(4)], s.pick(4), f, txt));
 		for (unsigned pk = 1; pk <= 24; ++pk) if (s.chance(1, 2)) { uint8_t row[40]; for (auto &b : row) b = s.chance(1, 2) ? (uint8_t)(0x40 | s.pick(64)) : (uint8_t) s.range(0x20, 0x7F); out.push_back(tx::row(mag, pk, row)); }
 		if (s.chance(2, 3)) { unsigned t[13]; for (auto &x : t) x = s.u32() & 0x3FFFF; t[0] = (t[0] & ~0x7Fu) | (4 + s.pick(2)); out.push_back(tx::triplets(mag, 28, 3, t)); }
 	}
@@ -181,6 +181,7 @@ static void gen_l25(St &st, std::vector<tx::Packet> &out) {
 	if (s.chance(1, 3)) { unsigned t[13]; for (auto &x : t) x = s.u32() & 0x3FFFF; out.push_back(tx::triplets(mag, 27, 4, t)); }
 	if (s.chance(1, 3)) { unsigned t[13]; for (auto &x : t) x = s.u32() & 0x3FFFF; t[0] &= ~0x7Fu; out.push_back(tx::triplets(mag, 28, s.chance(1, 2) ? 0 : 4, t)); }
 	out.push_back(tx::header(mag, 0xFF, 0x3F7F, f, txt));
+	return mag << 8 | page;
 }
 
 static uint8_t par7(unsigned c) { return enc::par((uint8_t) c); }
@@ -233,6 +234,7 @@ static int read_side(St &st) {
 		int level = (int) s.pick(5); static const vbi_wst_level LV[] = { VBI_WST_LEVEL_1, VBI_WST_LEVEL_1p5, VBI_WST_LEVEL_2p5, VBI_WST_LEVEL_3p5, VBI_WST_LEVEL_3p5 };
 		if (vbi_fetch_vt_page(dec, &pg, (vbi_pgno) pgno, subno, LV[level], (int) s.pick(27), s.chance(1, 2))) {
 			st.read_ok = true;
+			for (int i = 0; i < pg.rows * pg.columns; ++i) if (pg.text[i].foreground >= 40 || pg.text[i].background >= 40) { int fg = pg.text[i].foreground, bg = pg.text[i].background; vbi_unref_page(&pg); return st.r.fail("C01:fetched-page-colour-index-out-of-range", "page %x level %d cell %d: foreground %d background %d, the colour map has 40 entries", pgno, level, i, fg, bg); }
 			// follow-up calls on the fetched page
 			unsigned what = s.pick(8);
 			if (what == 0) { vbi_link ld; vbi_resolve_link(&pg, (int) s.pick((uint32_t) pg.columns), (int) s.pick((uint32_t)(pg.rows ? pg.rows : 1)), &ld); }
@@ -321,20 +323,28 @@ int vf_run_case(Src &s, Report &r) {
 				std::vector<vbi_sliced> f2 = k == 0 ? fr : std::vector<vbi_sliced>();
 				if (k < cc1.size()) { vbi_sliced sl; memset(&sl, 0, sizeof sl); sl.id = pal ? VBI_SLICED_CAPTION_625_F1 : VBI_SLICED_CAPTION_525_F1; sl.line = pal ? 22 : 21; sl.data[0] = cc1[k].first; sl.data[1] = cc1[k].second; f2.push_back(sl); }
 				if (k < cc2.size()) { vbi_sliced sl; memset(&sl, 0, sizeof sl); sl.id = pal ? VBI_SLICED_CAPTION_625_F2 : VBI_SLICED_CAPTION_525_F2; sl.line = pal ? 335 : 284; sl.data[0] = cc2[k].first; sl.data[1] = cc2[k].second; f2.push_back(sl); }
+				if (r.verbose) for (auto &x : f2) r.say("   line id 0x%x %s\n", x.id, hex(x.data, (x.id & VBI_SLICED_TELETEXT_B) ? 42 : 3).c_str());
 				vbi_decode(st.dec, f2.empty() ? nullptr : f2.data(), (int) f2.size(), st.t);
 				if (periodic) for (auto &x : f2) cycle.push_back(x);
 				st.t += 1 / 25.0;
 			}
 		} else if (what == 9 && s.chance(1, 2)) {	// a Level 2.5 neighbourhood, a few packets per frame
-			std::vector<tx::Packet> pk; gen_l25(st, pk);
+			std::vector<tx::Packet> pk; unsigned l25_page = gen_l25(st, pk);
 			size_t i = 0;
 			while (i < pk.size()) {
 				std::vector<vbi_sliced> f2; unsigned n = 1 + s.pick(12);
 				for (unsigned k = 0; k < n && i < pk.size(); ++k, ++i) { vbi_sliced sl; memset(&sl, 0, sizeof sl); sl.id = VBI_SLICED_TELETEXT_B; sl.line = 7 + k; memcpy(sl.data, pk[i].b, 42); if (s.chance(1, 40)) sl.data[s.pick(42)] ^= (uint8_t)(1 << s.pick(8)); f2.push_back(sl); ++st.ttx_lines; }
+				if (r.verbose) for (auto &x : f2) r.say("   l25 pkt %s\n", hex(x.data, 42).c_str());
 				vbi_decode(st.dec, f2.data(), (int) f2.size(), st.t); st.t += 1 / 25.0;
 				if (periodic) for (auto &x : f2) cycle.push_back(x);
 			}
 			r.cls("level-2.5-neighbourhood");
+			for (int lv : {VBI_WST_LEVEL_2p5, VBI_WST_LEVEL_3p5}) if (s.chance(2, 3)) { vbi_page pg; if (vbi_fetch_vt_page(st.dec, &pg, (vbi_pgno) l25_page, VBI_ANY_SUBNO, (vbi_wst_level) lv, 25, 1)) {
+				st.read_ok = true;
+				for (int i = 0; i < pg.rows * pg.columns; ++i) if (pg.text[i].foreground >= 40 || pg.text[i].background >= 40) { vbi_unref_page(&pg); vbi_decoder_delete(st.dec); return r.fail("C01:fetched-page-colour-index-out-of-range", "page %x level %d row %d column %d: foreground %u background %u unicode %04x size %u, the colour map has 40 entries", l25_page, lv, i / pg.columns, i % pg.columns, pg.text[i].foreground, pg.text[i].background, pg.text[i].unicode, pg.text[i].size); }
+				if (s.chance(1, 3)) { size_t stride = 41 * 12 * 4; uint8_t *cv = (uint8_t *) malloc(stride * 25 * 10); vbi_draw_vt_page_region(&pg, VBI_PIXFMT_RGBA32_LE, cv, (int) stride, 0, 0, pg.columns, pg.rows, 1, 1); free(cv); }
+				if (s.chance(1, 3)) { vbi_export *e = vbi_export_new(s.chance(1, 2) ? "png" : "html", nullptr); if (e) { void *b = nullptr; size_t z = 0; if (vbi_export_alloc(e, &b, &z, &pg)) free(b); vbi_export_delete(e); } }
+				vbi_unref_page(&pg); } }
 		} else if (what == 6) {	// time
 			switch (s.pick(5)) { case 0: st.t += 1 / 30.0; break; case 1: break; case 2: st.t += s.pick(1000) / 10.0; break; case 3: st.t -= s.pick(100) / 10.0; break; default: st.t = s.chance(1, 2) ? 0.0 : 1e9; break; }
 		} else rc = read_side(st);
